@@ -188,7 +188,14 @@ def vault_case(sc: dict[str, Any]) -> dict[str, Any]:
         from sim.fakek8s import Fault
         first = {'o0': bool(sc.get('slow'))}
 
+        ssl = {'left': 1 if sc.get('ssl') else 0}
+
         def policy(req):
+            # `ssl`: the TLS stream dies under one request (a PATCH, or the watch request that re-opens the stream of the handled kind) while
+            # the credentials are perfectly valid: the session is unusable, the framework re-authenticates and the request proceeds
+            if ssl['left'] and sim.now >= 10 and req.route.get('plural') == PLURAL and req.route.get('kind') == sc['ssl']:
+                ssl['left'] -= 1
+                return Plan(fault=Fault('sslclosed'))
             if req.route.get('kind') != 'patch':
                 return None
             if first['o0'] and req.route.get('name') == 'o0' and sim.now >= 10:
@@ -201,8 +208,14 @@ def vault_case(sc: dict[str, Any]) -> dict[str, Any]:
         for nm in names:
             sim.world.at(1, lambda nm=nm: sim.create(nm, {'x': 0}), 1)
         # all objects are edited at once, and right after the requests left the credentials are revoked
-        sim.world.at(10, lambda: [sim.set_spec(nm, x=1) for nm in names], 1)
-        sim.world.at(10, lambda: sim.srv.valid_gens.clear(), 1)
+        if sc.get('ssl'):
+            sim.srv.valid_gens = None          # (nothing is revoked in these runs)
+            if sc['ssl'] == 'watch':
+                sim.world.at(10, lambda: [w.end('eof') for w in list(sim.srv.watches) if w.res.plural == PLURAL], 1)
+            sim.world.at(12, lambda: [sim.set_spec(nm, x=1) for nm in names], 1)
+        else:
+            sim.world.at(10, lambda: [sim.set_spec(nm, x=1) for nm in names], 1)
+            sim.world.at(10, lambda: sim.srv.valid_gens.clear(), 1)
         sim.run(60)
         reqs = [{'t': int(e['t']), 'sent': int(e.get('sent', e['t'])), 'gen': e['gen'], 'code': e['code']} for e in sim.recorder.events
                 if e['ev'] == 'srv.req' and e.get('kind') == 'patch' and e['t'] >= 10]
@@ -264,6 +277,7 @@ def run(ctx, rep) -> None:
     recs = retry_records(ctx.quick, ctx.seed)
     tscs = throttle_scenarios(ctx.seed, 240 if ctx.quick else 4000)
     vscs = [{'id': f'vault-{n}-{lat}', 'n': n, 'latency': lat} for n in (1, 2, 3, 5) for lat in (0, 1, 2)]
+    vscs += [{'id': f'vault-{n}-ssl-{k}', 'n': n, 'latency': 0, 'ssl': k} for n in (1, 3) for k in ('patch', 'watch')]
     vscs += [{'id': f'vault-{n}-{lat}-close{c}-slow', 'n': n, 'latency': lat, 'close': c, 'slow': True} for n in (2, 3) for lat in (0, 1) for c in (0, 1, 2, 3)]
     with ProcessPoolExecutor(16) as ex:
         recs += list(ex.map(throttle_case, tscs, chunksize=2))
